@@ -115,6 +115,13 @@ def families(tier, seed):
     yield Instance("block-three", mol(tok("N"), sto("[>]", [a], [], "[<]", g0(30.0)), sto("[>]", [b], [], "[<]", g0(30.0)), tok("S"), sto("[>]", ["[<]CS[>]"], [], "[<]", g0(30.0)), tok("F")), family="block")
     if thorough:
         yield Instance("block-endgroups", mol(tok("N"), sto("[>]", ["[<]CC([>])[>]"], ["[<]Cl"], "[<]", g0(40.0)), tok("S"), sto("[>]", ["[<]CO[>]"], [], "[<]", g0(40.0)), tok("F")), family="block")
+    # the same token text (same descriptor offset) in two objects of one molecule: A-B-A triblock, shared end groups
+    yield Instance("triblock-aba", mol(tok("N"), sto("[>]", [a], [], "[<]", g0(30.0)), tok("S"), sto("[>]", [b], [], "[<]", g0(30.0)), tok("P"), sto("[>]", [a], [], "[<]", g0(30.0)), tok("F")), family="block")
+    yield Instance("two-objects-same-units-and-ends", mol(tok("N"), sto("[>]", ["[<|3|]CC[>]", "[<]CO[>]"], ["[<][H]"], "[<]", g0(30.0)), sto("[>]", ["[<]CC[>]", "[<|3|]CO[>]"], ["[<][H]"], "[<]", g0(30.0)), tok("F")), family="block")
+    # explicit id 0 (an id, not "no id") on terminals, units, end groups and the inserted descriptors
+    yield Instance("id-zero-sym", mol(tok("C"), sto("[$0]", ["[$0]CC[$0]"], ["[$0]F"], "[$0]", g0(40.0)), tok("N")), family="ids")
+    yield Instance("id-zero-dir", mol(tok("C"), sto("[>0]", ["[<0]CC[>0]", "[<0]CO[>0]"], [], "[<0]", g0(40.0)), sto("[>0]", ["[<0]CS[>0]"], [], "[<0]", g0(50.0)), tok("N")), family="ids")
+    yield Instance("id-zero-vs-none", mol(sto("[]", ["[$0]CC[$0]", "[$]CO[$]"], ["[$0]F", "[$]Cl"], "[]", g0(50.0))), family="ids")
     # second block entered in the opposite direction
     yield Instance("block-reversed-second", mol(tok("N"), sto("[>]", [a], [], "[<]", g0(40.0)), tok("[<]S[<|0|]"), sto("[<]", [b], [], "[>]", g0(40.0)), tok("[>]F")), family="block")
     # 6. alternating through ids
